@@ -150,7 +150,7 @@ class IC10Instruction:
                 raise CompilerError(
                     f"Input must be an IC10Operand, have {inp}", self.node
                 )
-            if isinstance(inp.value, _DevicesLogicType):
+            if isinstance(inp.value, (_DevicesLogicType, _DevicesSlotType)):
                 raise CompilerError(
                     f"Missing LogicBatchMethod in expression",
                     self.node,
